@@ -29,6 +29,10 @@ pub enum InjKind {
     /// the nth genuine ack frame handed to this endpoint additionally claims frames the endpoint has already seen
     /// acknowledged (a repeated acknowledgement bundled with fresh ones; selector bits choose which; nth = 0xFFFF: every ack frame)
     ExtendAck { nth: u16, sel: u32 },
+    /// a group that uses all 32 positions: its last position claims a frame that was never sent (`unknown`), or a
+    /// really-sent frame whose nonce makes the group's parity wrong; the lower claims (selected by `low`) are
+    /// really-sent frames with the right parity among themselves
+    FullWidth { unknown: bool, low: u32 },
 }
 
 #[derive(Clone, Debug, Serialize, Deserialize)]
@@ -55,6 +59,7 @@ fn kind_strategy() -> impl Strategy<Value = InjKind> {
         1 => (1u32..100_000, any::<u32>()).prop_map(|(behind, bitfield)| InjKind::Stale { behind, bitfield: bitfield | 1 }),
         5 => (prop_oneof![2 => 0u16..10, 2 => 0u16..60, 1 => 0u16..300], prop_oneof![3 => Just(0u32), 2 => 1u32..30_000, 1 => 30_000u32..2_000_000]).prop_map(|(nth, delay_us)| InjKind::DupAck { nth, delay_us }),
         5 => (prop_oneof![2 => Just(0xFFFFu16), 1 => 0u16..10, 1 => 0u16..60], prop_oneof![Just(u32::MAX), any::<u32>()]).prop_map(|(nth, sel)| InjKind::ExtendAck { nth, sel }),
+        3 => (any::<bool>(), prop_oneof![Just(1u32), Just(0x7FFF_FFFFu32), any::<u32>()]).prop_map(|(unknown, low)| InjKind::FullWidth { unknown, low }),
     ]
 }
 
@@ -117,12 +122,15 @@ fn run_once(sc: &PairScenario, inj: Option<&[Injection]>) -> RunOut {
     let mut recent = 0;
     let mut classes = Vec::new();
     let n = sc.ticks.len();
+    let mut full_width_done: std::collections::HashSet<usize> = std::collections::HashSet::new();
     for (k, t) in sc.ticks.iter().enumerate() {
         sim.run_tick(t);
         if let Some(list) = inj {
             obs.update(&sim);
-            for i in list.iter() {
-                if pick_index(i.after_tick, n) != k {
+            for (ii, i) in list.iter().enumerate() {
+                // full-width groups need 31 logged frames: they wait for the first tick from theirs on where that holds
+                let waiting_full_width = matches!(i.kind, InjKind::FullWidth { .. }) && pick_index(i.after_tick, n) <= k && !full_width_done.contains(&ii);
+                if pick_index(i.after_tick, n) != k && !waiting_full_width {
                     continue;
                 }
                 let e = (i.ep % 2) as usize;
@@ -185,6 +193,34 @@ fn run_once(sc: &PairScenario, inj: Option<&[Injection]>) -> RunOut {
                         classes.push("mixed_known_unknown");
                         vec![AckGroup { base_id, bitfield, nonce }]
                     }
+                    InjKind::FullWidth { unknown, low } => {
+                        let Some(newest) = obs.sent[e].last().map(|s| s.0) else { continue };
+                        // the 31 (or 32) really-sent frames the group spans must still be in the sender's log, or the
+                        // group is rejected for that reason alone
+                        let base_id = if *unknown { newest.wrapping_sub(30) } else { newest.wrapping_sub(31) };
+                        let known = if *unknown { 31 } else { 32 };
+                        let states: Vec<Option<(bool, bool, bool)>> = (0..known).map(|b| sim.hc[e].verif_sent_frame(base_id.wrapping_add(b))).collect();
+                        if states.iter().any(|s| s.is_none()) {
+                            continue;
+                        }
+                        if *unknown && sim.hc[e].verif_sent_frame(base_id.wrapping_add(31)).is_some() {
+                            continue;
+                        }
+                        let lowbits = (*low & 0x7FFF_FFFF).max(1);
+                        let mut p_low = false;
+                        for b in 0..31u32 {
+                            if lowbits & (1 << b) != 0 {
+                                p_low ^= states[b as usize].unwrap().1;
+                            }
+                        }
+                        if !*unknown && !states[31].unwrap().1 {
+                            // with a nonce bit of 0 in the last position the group would be a VALID acknowledgement
+                            continue;
+                        }
+                        full_width_done.insert(ii);
+                        classes.push(if *unknown { "full_width_last_unknown" } else { "full_width_wrong_parity" });
+                        vec![AckGroup { base_id, bitfield: 0x8000_0000 | lowbits, nonce: p_low }]
+                    }
                     InjKind::DupAck { .. } | InjKind::ExtendAck { .. } => continue,
                     InjKind::Stale { behind, bitfield } => {
                         classes.push("stale_behind");
@@ -237,7 +273,38 @@ impl Check for C15 {
         let p = GenParams { max_ticks: tier.pick(120, 300), max_sends: 5, max_frags: 4, tail: false, modes: [1, 1, 2, 3], ..GenParams::default() };
         let p_low = GenParams { low_bandwidth: true, max_latency_us: 40_000, ..p.clone() };
         let inj = (any::<u16>(), 0u8..2, kind_strategy()).prop_map(|(after_tick, ep, kind)| Injection { after_tick, ep, kind });
-        (prop_oneof![1 => scenario_strategy(&p), 1 => scenario_strategy(&p_low)], proptest::collection::vec(inj, 1..tier.pick(12, 40))).prop_map(|(sc, inj)| Case { sc, inj }).boxed()
+        // "many frames": every send becomes a burst of packets of about one frame each on a fast connection with full-size
+        // windows, so that the sender's log holds dozens of frames (needed by the 32-wide groups)
+        let many = (scenario_strategy(&p), 6u32..20, 700u32..1400).prop_map(|(mut sc, mult, size)| {
+            for d in sc.dirs.iter_mut() {
+                d.bw_limit = d.bw_limit.max(50_000_000);
+                d.frm_win_log2 = 12;
+                d.pkt_win_log2 = 12;
+                d.alloc_limit = d.alloc_limit.max(4_000_000);
+            }
+            // mostly loss-free (loss keeps TFRC at a few frames per round trip)
+            for l in sc.links.iter_mut() {
+                for (k, f) in l.fates.iter_mut().enumerate() {
+                    if k % 8 != 7 || k < 64 {
+                        *f = Fate::Deliver(0);
+                    }
+                }
+            }
+            for t in sc.ticks.iter_mut() {
+                for a in t.acts.iter_mut() {
+                    a.step = true;
+                    let mut v = Vec::new();
+                    for sp in a.sends.iter().take(3) {
+                        for j in 0..mult {
+                            v.push(SendSpec { ch: sp.ch, mode: sp.mode, size: size + j });
+                        }
+                    }
+                    a.sends = v;
+                }
+            }
+            sc
+        });
+        (prop_oneof![2 => scenario_strategy(&p), 2 => scenario_strategy(&p_low), 1 => many], proptest::collection::vec(inj, 1..tier.pick(12, 40))).prop_map(|(sc, inj)| Case { sc, inj }).boxed()
     }
 
     fn cases(&self, tier: Tier) -> u64 {
@@ -245,7 +312,7 @@ impl Check for C15 {
     }
 
     fn rule(&self) -> String {
-        "case = SimPair scenario + list of injections; the scenario is run twice with identical clock and nonce streams, the second time additionally handing the senders, between ticks, ack frames that must be inert: genuine earlier ack groups replayed (any age), groups over really-sent frames with the nonce inverted (any bitfield, including ones that do not claim their own base frame), groups ahead of / far behind the frame log, groups mixing sent and never-sent ids, network duplicates of genuine ack frames arriving right behind the original (same step interval) or up to 2 s later, and genuine ack frames whose groups additionally claim frames the sender has already seen acknowledged (repeated acknowledgements bundled with fresh ones; only frames still in the sender's log, with the nonce adjusted, never gaining a rate-limited frame); every forged frame carries the window bases of the latest genuine ack that endpoint handled, so it cannot move a window. Oracle: both runs emit byte-identical frames at identical virtual times and report identical rtt_s(), allowed rate, is_send_pending(), send_buffer_size() and queue lengths at every snapshot, and deliver identically. Non-trivial = at least one injected group referred to a frame sent within the last virtual second. Distinct = distinct serialised case.".into()
+        "case = SimPair scenario + list of injections; the scenario is run twice with identical clock and nonce streams, the second time additionally handing the senders, between ticks, ack frames that must be inert: genuine earlier ack groups replayed (any age), groups over really-sent frames with the nonce inverted (any bitfield, including ones that do not claim their own base frame), groups ahead of / far behind the frame log, groups mixing sent and never-sent ids, groups using all 32 positions whose last position alone makes them invalid (never-sent frame, or a sent frame whose nonce spoils the parity), network duplicates of genuine ack frames arriving right behind the original (same step interval) or up to 2 s later, and genuine ack frames whose groups additionally claim frames the sender has already seen acknowledged (repeated acknowledgements bundled with fresh ones; only frames still in the sender's log, with the nonce adjusted, never gaining a rate-limited frame); every forged frame carries the window bases of the latest genuine ack that endpoint handled, so it cannot move a window. Oracle: both runs emit byte-identical frames at identical virtual times and report identical rtt_s(), allowed rate, is_send_pending(), send_buffer_size() and queue lengths at every snapshot, and deliver identically. Non-trivial = at least one injected group referred to a frame sent within the last virtual second. Distinct = distinct serialised case.".into()
     }
 
     fn assumptions(&self) -> Vec<String> {
